@@ -93,6 +93,11 @@ func c05List(tier string) []c05Case {
 	nids := tierN(tier, 8, 80)
 	for i := 0; i < nids; i++ {
 		cs := c05Case{Family: "ids", Calls: 1280}
+		if i%4 == 1 {
+			// two client connections served by one Server object at the same time: each is an id
+			// space of its own, and nothing may cross from one to the other
+			cs.Topo = "direct/2"
+		}
 		if i%4 == 3 {
 			// through the proxy: bursts of 12 (below its per-destination buffer)
 			cs.Topo, cs.Calls = "proxy", 360
@@ -391,7 +396,11 @@ func c05IDs(tier string, seed int64, idx int, c c05Case, res *core.Result) {
 	h.Jitter = uint64(seed)*3 + uint64(idx) + 1
 	h.Install()
 	setGMP([]int{2, 4, 16}[idx%3])
-	b := bed.New(bed.Opts{Cap: 8, Topology: c.Topo})
+	topo, nconn := c.Topo, 1
+	if topo == "direct/2" {
+		topo, nconn = "direct", 2
+	}
+	b := bed.New(bed.Opts{Cap: 8, Topology: topo, Clients: nconn})
 	cc := b.Conns[0]
 	total := 0
 	faultsInjected, callsFailed := 0, 0
@@ -421,7 +430,7 @@ func c05IDs(tier string, seed int64, idx int, c c05Case, res *core.Result) {
 				tag := fmt.Sprintf("id-%d-%d", total, i)
 				<-start
 				if i%3 == 0 {
-					s, err := svc.Open(context.Background(), cc, "bidi", tag, nil)
+					s, err := svc.Open(context.Background(), b.Conns[i%nconn], "bidi", tag, nil)
 					if err != nil {
 						errs[i] = err
 						return
@@ -446,7 +455,7 @@ func c05IDs(tier string, seed int64, idx int, c c05Case, res *core.Result) {
 					return
 				}
 				want := c05Big("p-"+tag, i)
-				got, err := svc.Invoke(context.Background(), cc, tag, want)
+				got, err := svc.Invoke(context.Background(), b.Conns[i%nconn], tag, want)
 				if err != nil {
 					errs[i] = err
 				} else if string(got) != string(want) {
@@ -505,20 +514,23 @@ func c05IDs(tier string, seed int64, idx int, c c05Case, res *core.Result) {
 	// wire: ids pairwise distinct across calls, one tag per id
 	idTag := map[uint64]string{}
 	tagID := map[string]uint64{}
-	for _, e := range b.Links[0].Tap.Log() {
-		if e.Dir != 0 {
-			continue
-		}
-		for _, kv := range e.Rpc.GetHeader().GetHeaders() {
-			if kv.Key == svc.TagKey {
-				if t, ok := idTag[e.Rpc.GetId()]; ok && t != kv.Value {
-					res.Violate("stream-id-reused", "id %d used by calls %s and %s on one connection", e.Rpc.GetId(), t, kv.Value)
+	for li, l := range b.Links {
+		for _, e := range l.Tap.Log() {
+			if e.Dir != 0 {
+				continue
+			}
+			e.Rpc.Id += uint64(li) << 40 // one id space per connection
+			for _, kv := range e.Rpc.GetHeader().GetHeaders() {
+				if kv.Key == svc.TagKey {
+					if t, ok := idTag[e.Rpc.GetId()]; ok && t != kv.Value {
+						res.Violate("stream-id-reused", "id %d used by calls %s and %s on one connection", e.Rpc.GetId(), t, kv.Value)
+					}
+					idTag[e.Rpc.GetId()] = kv.Value
+					if id, ok := tagID[kv.Value]; ok && id != e.Rpc.GetId() {
+						res.Violate("call-uses-two-ids", "call %s used ids %d and %d", kv.Value, id, e.Rpc.GetId())
+					}
+					tagID[kv.Value] = e.Rpc.GetId()
 				}
-				idTag[e.Rpc.GetId()] = kv.Value
-				if id, ok := tagID[kv.Value]; ok && id != e.Rpc.GetId() {
-					res.Violate("call-uses-two-ids", "call %s used ids %d and %d", kv.Value, id, e.Rpc.GetId())
-				}
-				tagID[kv.Value] = e.Rpc.GetId()
 			}
 		}
 	}
@@ -580,7 +592,7 @@ func init() {
 	core.Register(&core.Prop{
 		ID:         "C05",
 		Level:      "exploration",
-		Rule:       "(perm) for each configuration of k<=3 (thorough also 4) outstanding calls with per-call scripts of 1 (unary) or 2..6 envelopes, EVERY order-preserving merge (multiset permutation) of the scripts is played on a fresh connection: by a scripted server against a real client (replies, headers, bodies, trailers, distinct statuses per call) and by a scripted client against a real server (requests, opens, bodies, half-closes); each call/handler must observe exactly its own script. (ids) histories of 1280 calls per connection (quick 8, thorough 80 connections), 64 callers released from a barrier per burst, unary and streams mixed, every 4th history through the proxy in bursts of 12, and ending with calls whose write is reported failed although it was delivered: ids on the wire pairwise distinct, one id per call, every call sees only its own echo. (websocket) quick 6 / thorough 48 cases of 2..16 unary calls and 2..8 echo streams at once over the shipped websocket transport on loopback sockets with stalling writes, payloads 0..64 KiB: no call or stream sees foreign content (calls that merely fail are counted, not judged here; 30 s wall bound = inconclusive). distinct_nontrivial = interleavings enumerated (all distinct) + id histories.",
+		Rule:       "(perm) for each configuration of k<=3 (thorough also 4) outstanding calls with per-call scripts of 1 (unary) or 2..6 envelopes, EVERY order-preserving merge (multiset permutation) of the scripts is played on a fresh connection: by a scripted server against a real client (replies, headers, bodies, trailers, distinct statuses per call) and by a scripted client against a real server (requests, opens, bodies, half-closes); each call/handler must observe exactly its own script. (ids) histories of 1280 calls per connection (quick 8, thorough 80 connections), 64 callers released from a barrier per burst, unary and streams mixed, every 4th history through the proxy in bursts of 12, every 4th over two client connections served by one Server object, and ending with calls whose write is reported failed although it was delivered: ids on the wire pairwise distinct, one id per call, every call sees only its own echo. (websocket) quick 6 / thorough 48 cases of 2..16 unary calls and 2..8 echo streams at once over the shipped websocket transport on loopback sockets with stalling writes, payloads 0..64 KiB: no call or stream sees foreign content (calls that merely fail are counted, not judged here; 30 s wall bound = inconclusive). distinct_nontrivial = interleavings enumerated (all distinct) + id histories.",
 		Plan:       func(tier string, seed int64) int { return len(c05List(tier)) },
 		Run:        c05Run,
 		Exhaustive: func(string) bool { return true },
